@@ -2,6 +2,7 @@ package main
 
 import (
 	"bufio"
+	"bytes"
 	"crypto/rand"
 	"crypto/sha256"
 	"errors"
@@ -40,7 +41,7 @@ func el(p rawPt) *secp.Element    { return secp.VerifSetRaw(secp.NewElement(), [
 func elRaw(e *secp.Element) rawPt { return rawPt(secp.VerifRaw(e)) }
 func parseP(a []string) rawPt     { return rawPt{parseL(a[0]), parseL(a[1]), parseL(a[2])} }
 func ptOut(e *secp.Element) string {
-	return join(kv("r", showP(elRaw(e))), kv("c", showB(e.Encode())))
+	return join(kv("r", showP(elRaw(e))), kv("c", showB(stable(e.Encode))))
 }
 
 func errName(err error) string {
@@ -65,6 +66,56 @@ func panicName(r any) string {
 }
 
 // alias selects, deterministically per line, which receiver/argument aliasing a field-level op uses.
+// stable calls an encoder, scribbles over the returned buffer and calls it again: a returned buffer must be fresh, so the
+// second result must equal the first. When it does not, the second result is reported (and disagrees with the specification).
+func stable(f func() []byte) []byte {
+	a := f()
+	keep := append([]byte{}, a...)
+	for i := range a {
+		a[i] ^= 0xa5
+	}
+	b := f()
+	if !bytes.Equal(b, keep) {
+		return b
+	}
+	return keep
+}
+
+// buffers that survive from one operation line to the next (a caller re-using its message / DST buffers)
+var persistMsg, persistDst [4096]byte
+
+// layoutArgs places the message and the DST of a hashing call in one of the memory layouts a caller may use: separate
+// buffers; adjacent windows of one buffer (msg then dst: the DST lies in the message's spare capacity; and dst then msg);
+// buffers re-used from the previous call and overwritten in place. The contents are the same in every layout.
+func layoutArgs(line string, msg, dst []byte) ([]byte, []byte) {
+	switch aliasChoice(line+"layout", 5) {
+	case 1:
+		buf := append(append(append([]byte{}, msg...), dst...), 0x5a, 0x5a, 0x5a, 0x5a, 0x5a, 0x5a, 0x5a, 0x5a)
+		return buf[:len(msg)], buf[len(msg) : len(msg)+len(dst)]
+	case 2:
+		buf := append(append(append([]byte{}, dst...), msg...), 0x5a, 0x5a, 0x5a, 0x5a, 0x5a, 0x5a, 0x5a, 0x5a)
+		return buf[len(dst) : len(dst)+len(msg)], buf[:len(dst)]
+	case 3, 4:
+		if len(msg) <= len(persistMsg) && len(dst) <= len(persistDst) {
+			copy(persistMsg[:], msg)
+			copy(persistDst[:], dst)
+			return persistMsg[:len(msg)], persistDst[:len(dst)]
+		}
+	}
+	return msg, dst
+}
+
+var persistIn [4096]byte
+
+// reuseIn: every other line the input bytes live in a buffer re-used (overwritten in place) from line to line
+func reuseIn(line string, b []byte) []byte {
+	if len(b) == 0 || len(b) > len(persistIn) || aliasChoice(line+"reuse", 2) == 0 {
+		return b
+	}
+	copy(persistIn[:], b)
+	return persistIn[:len(b)]
+}
+
 func aliasChoice(line string, n int) int {
 	h := fnv.New32a()
 	h.Write([]byte(line))
@@ -448,16 +499,17 @@ func execLine(h *hist, line string) (out string) {
 		return join(kv("n", strconv.Itoa(len(bits))), kv("b", showL(l)), kv("m", strconv.Itoa(int(mx))))
 	case "SC.enc":
 		s := sc(parseL(a[0]))
-		enc := s.Encode()
-		mb, _ := s.MarshalBinary()
+		enc := stable(s.Encode)
+		mb := stable(func() []byte { b, _ := s.MarshalBinary(); return b })
 		return join(kv("v", showB(enc)), kv("h", s.Hex()), kv("m", showB(mb)))
 	case "SC.dec", "SC.unmarshal":
 		r := sc(parseL(a[0]))
 		var err error
+		in := reuseIn(line, parseB(a[1]))
 		if op == "SC.dec" {
-			err = r.Decode(parseB(a[1]))
+			err = r.Decode(in)
 		} else {
-			err = r.UnmarshalBinary(parseB(a[1]))
+			err = r.UnmarshalBinary(in)
 		}
 		return join(kv("e", errName(err)), rvN(r))
 	case "SC.dechex":
@@ -498,8 +550,8 @@ func execLine(h *hist, line string) (out string) {
 		return kv("r", b2s(el(parseP(a)).IsIdentity()))
 	case "PT.enc":
 		p := el(parseP(a))
-		mb, _ := p.MarshalBinary()
-		return join(kv("c", showB(p.Encode())), kv("u", showB(p.EncodeUncompressed())), kv("x", showB(p.XCoordinate())),
+		mb := stable(func() []byte { b, _ := p.MarshalBinary(); return b })
+		return join(kv("c", showB(stable(p.Encode))), kv("u", showB(stable(p.EncodeUncompressed))), kv("x", showB(stable(p.XCoordinate))),
 			kv("h", p.Hex()), kv("m", showB(mb)))
 	case "PT.mul":
 		p := el(parseP(a))
@@ -516,7 +568,7 @@ func execLine(h *hist, line string) (out string) {
 	// ---------------- decoders ----------------
 	case "DEC.any", "DEC.unmarshal", "DEC.comp", "DEC.uncomp", "DEC.hex":
 		r := el(parseP(a))
-		b := parseB(a[3])
+		b := reuseIn(line, parseB(a[3]))
 		var err error
 		switch op {
 		case "DEC.any":
@@ -541,13 +593,17 @@ func execLine(h *hist, line string) (out string) {
 		return kv("o", showB(d[:]))
 	case "XMD.expand":
 		l, _ := strconv.ParseUint(a[2], 16, 32)
-		return kv("o", showB(secp.VerifExpandXMD(parseB(a[0]), parseB(a[1]), uint(l))))
+		m, d := layoutArgs(line, parseB(a[0]), parseB(a[1]))
+		return kv("o", showB(secp.VerifExpandXMD(m, d, uint(l))))
 	case "H2C.h2g":
-		return ptOut(secp.HashToGroup(parseB(a[0]), parseB(a[1])))
+		m, d := layoutArgs(line, parseB(a[0]), parseB(a[1]))
+		return ptOut(secp.HashToGroup(m, d))
 	case "H2C.e2g":
-		return ptOut(secp.EncodeToGroup(parseB(a[0]), parseB(a[1])))
+		m, d := layoutArgs(line, parseB(a[0]), parseB(a[1]))
+		return ptOut(secp.EncodeToGroup(m, d))
 	case "H2C.h2s":
-		return rvN(secp.HashToScalar(parseB(a[0]), parseB(a[1])))
+		m, d := layoutArgs(line, parseB(a[0]), parseB(a[1]))
+		return rvN(secp.HashToScalar(m, d))
 	case "H2C.h2gu", "H2C.e2gu", "H2C.h2su":
 		secp.VerifUniformOverride = parseB(a[0])
 		secp.VerifOverrideUsed = 0
@@ -601,7 +657,7 @@ func execLine(h *hist, line string) (out string) {
 		}()
 		return res
 	case "G.order":
-		return kv("o", showB(secp.Order()))
+		return kv("o", showB(stable(secp.Order)))
 	case "G.base":
 		return ptOut(secp.Base())
 	}
